@@ -21,7 +21,8 @@ Record slotv := { sv_rev : N; sv_valid : bool }.
 Inductive seqpc :=
 | SqIdle                    (* backend.go:215-216  load slot (committed+1) mod cap *)
 | SqGot (r : N)             (* backend.go:227      store nil at slot r mod cap *)
-| SqStore (r : N)           (* tso.go:64           committed := r *)
+| SqStore (r : N)           (* tso.Commit, raise-only loop: cur := committed *)
+| SqStoreCas (r cur : N)    (*   if r <= cur: done; else CAS(committed, cur, r), on failure load again *)
 | SqLoadDealt (r : N)       (* tso.go:66           pre := dealt *)
 | SqCas (r pre : N).        (* tso.go:67-69        if pre < r then CAS(dealt, pre, r) *)
 
@@ -97,9 +98,13 @@ Definition r_seq (s : rstate) : rstate :=
   | SqGot r =>
       {| dealt := dealt s; committed := committed s; slots := upd (slots s) (r mod cap) None;
          seq := SqStore r; held := held s; rlog := rlog s; rpanic := rpanic s |}
-  | SqStore r =>
-      {| dealt := dealt s; committed := r; slots := slots s;
-         seq := SqLoadDealt r; held := held s; rlog := rlog s; rpanic := rpanic s |}
+  | SqStore r => set_seq s (SqStoreCas r (committed s))
+  | SqStoreCas r cur =>
+      if r <=? cur then set_seq s (SqLoadDealt r)
+      else if committed s =? cur then
+        {| dealt := dealt s; committed := r; slots := slots s;
+           seq := SqLoadDealt r; held := held s; rlog := rlog s; rpanic := rpanic s |}
+      else set_seq s (SqStore r)
   | SqLoadDealt r => set_seq s (SqCas r (dealt s))
   | SqCas r pre =>
       if pre <? r then
@@ -128,8 +133,8 @@ Definition rstep (s : rstate) (l : rlabel) : rstate :=
 
 Definition rrun (ls : list rlabel) (s : rstate) : rstate := fold_left rstep ls s.
 
-(* the sequencer's whole iteration for one filled slot: five atomic actions *)
-Definition seq_take_labels : list rlabel := [RSeq; RSeq; RSeq; RSeq; RSeq].
+(* the sequencer's whole iteration for one filled slot: six atomic actions *)
+Definition seq_take_labels : list rlabel := [RSeq; RSeq; RSeq; RSeq; RSeq; RSeq].
 
 (* LSeqTake is enabled when the sequencer would find its slot filled *)
 Definition seq_ready (s : rstate) : bool :=
@@ -150,7 +155,9 @@ Definition dealt_revs (s : rstate) : list N :=
 
 Inductive cpc :=
 | CIdle
-| CStored (rev : N)            (* committed := rev done; next: pre := dealt *)
+| CStart (rev : N)             (* Commit(rev) entered; next: cur := committed *)
+| CCur (rev cur : N)           (* next: if rev <= cur skip, else CAS(committed, cur, rev); on failure load again *)
+| CStored (rev : N)            (* committed settled; next: pre := dealt *)
 | CLoaded (rev pre : N).       (* next: if pre < rev then CAS(dealt, pre, rev) *)
 
 Record tstate := {
@@ -162,30 +169,36 @@ Record tstate := {
 
 Inductive tlabel :=
 | TDeal (t : tid)
-| TCommit (t : tid) (rev : N)  (* Commit(rev) begins: store committed *)
-| TLoad (t : tid)
-| TCas (t : tid).
+| TCommit (t : tid) (rev : N)  (* Commit(rev) begins *)
+| TLoadC (t : tid)             (* load committed *)
+| TCasC (t : tid)              (* compare-and-swap committed (raise-only) *)
+| TLoad (t : tid)              (* load dealt *)
+| TCas (t : tid).              (* compare-and-swap dealt *)
 
 Definition tinit (d0 : N) : tstate :=
   {| t_dealt := d0; t_committed := d0; t_pc := fun _ => CIdle; t_log := [] |}.
 
-(* plain = true replaces the compare-and-swap by a plain store (the mutant the CAS protects against) *)
+Definition t_set_pc (s : tstate) (t : tid) (p : cpc) : tstate :=
+  {| t_dealt := t_dealt s; t_committed := t_committed s; t_pc := upd (t_pc s) t p; t_log := t_log s |}.
+
+(* plain = true replaces the compare-and-swap on dealt by a plain store (the mutant the CAS protects against) *)
 Definition tstep (plain : bool) (s : tstate) (l : tlabel) : tstate :=
   match l with
   | TDeal t =>
       {| t_dealt := t_dealt s + 1; t_committed := t_committed s; t_pc := t_pc s;
          t_log := (t, t_dealt s + 1) :: t_log s |}
-  | TCommit t rev =>
+  | TCommit t rev => match t_pc s t with CIdle => t_set_pc s t (CStart rev) | _ => s end
+  | TLoadC t => match t_pc s t with CStart rev => t_set_pc s t (CCur rev (t_committed s)) | _ => s end
+  | TCasC t =>
       match t_pc s t with
-      | CIdle => {| t_dealt := t_dealt s; t_committed := rev; t_pc := upd (t_pc s) t (CStored rev); t_log := t_log s |}
+      | CCur rev cur =>
+          if rev <=? cur then t_set_pc s t (CStored rev)
+          else if t_committed s =? cur then
+            {| t_dealt := t_dealt s; t_committed := rev; t_pc := upd (t_pc s) t (CStored rev); t_log := t_log s |}
+          else t_set_pc s t (CStart rev)
       | _ => s
       end
-  | TLoad t =>
-      match t_pc s t with
-      | CStored rev => {| t_dealt := t_dealt s; t_committed := t_committed s;
-                          t_pc := upd (t_pc s) t (CLoaded rev (t_dealt s)); t_log := t_log s |}
-      | _ => s
-      end
+  | TLoad t => match t_pc s t with CStored rev => t_set_pc s t (CLoaded rev (t_dealt s)) | _ => s end
   | TCas t =>
       match t_pc s t with
       | CLoaded rev pre =>
